@@ -1384,3 +1384,22 @@ PROPS["C05"].setdefault("coq_extra", []); PROPS["C05"]["coq_extra"] += ["Propert
 #      Seeded R5-C03-2 drops the source check there: an absent peripheral is brought up by a stranger's replies.
 PROPS["C03"]["domains"] = list(PROPS["C03"]["domains"]) + ["fdl"]
 PROPS["C03"]["also"] = list(PROPS["C03"].get("also", [])) + [("C15", "reply_invalid")]
+# agent fs (coq/Proofs/FdlSweepSound.v): soundness of the sweep-order / restart monitor Model/FdlSweep.v on model transcripts.  Texts only.
+PROPS["C12"]["level_note"] += (' SWEEP-ORDER / RESTART MONITOR (Model/FdlSweep.v: smonitor, rules P12_sweep_order - two consecutive own GAP requests of '
+    'one uninterrupted polling phase go to consecutive addresses below HSA - and P12_offline_forgets_ring - the view right after set_offline / new '
+    'is that of a fresh station; run on every crate transcript). Soundness on the MODEL, UNCONDITIONAL (Proofs/FdlSweepSound.v): '
+    'C12_sweep_monitor_step_sound - from every station state with Rep and sweep_inv (k0 = state kind, last = Some a -> GAP cursor = DoPoll a and not '
+    'Offline), every time in range, input and total applications, a returning poll yields no rule and re-establishes Rep and sweep_inv (proof: '
+    'C12_poll_sweep_rel + C12_poll_transmissions + C12_gap_state_frame; a transmission the monitor reads as an own GAP request is the request of '
+    'exactly one gap_visit_step, so its address is gap_succ HSA cursor; any other poll keeps a polling cursor, ends the phase, is the claim '
+    '(claim_tx) or re-creates the station (ends Offline: the monitor forgets `last`)); C12_offline_view_is_fresh (set_offline = new, its view is '
+    'fresh_view); C12_sweep_monitor_sound: smonitor is silent on EVERY model transcript (apps_total, ins_ok; neither builder_valid nor app_sends_data '
+    'needed). The proof found a false positive of the first version of the monitor (station re-created INSIDE a poll by the second address collision '
+    'while listening, `last` stale; reproduced on the unmodified crate with 0 divergences, witness corpus/fdl/sweep-recreated-in-poll.cases); the monitor '
+    'was repaired (a poll that ends Offline forgets `last`) and C12_sweep_monitor_recreated_in_poll is the model transcript of that history, accepted. '
+    'C12_sweep_monitor_example_accepted (a lone station polls 4,0,1,2 in consecutive visits, twice; accepted) and _rejected (same address twice / an '
+    'address skipped -> P12_sweep_order; valid LAS after set_offline -> P12_offline_forgets_ring) show the rules are not vacuous.')
+PROPS["C12"]["partial_gap"] += (' UPDATE 3 (sweep monitor, 38 theorems/examples in coq/Properties/C12.v): the monitor Model/FdlSweep.v is proved sound on '
+    'all model transcripts (C12_sweep_monitor_sound, no exclusion, after the repair of its in-poll re-creation corner). Completeness of the monitor '
+    '(that it catches every sweep that moves backwards) is not a theorem; it is exercised by the seeded changes R5-C12-1 / R5-C12-2 and the hand-made '
+    'events of C12_sweep_monitor_example_rejected.')
